@@ -27,12 +27,12 @@ type Vocab struct {
 	errRet, commitReply, lockInodes                        *ssa.Function
 
 	JrnlCommitWait, LogFlush, LogCommitWait, LogLoad, MkLog, JrnlBegin *ssa.Function
-	OverWrite, ReadBuf, SetDirty, BnumPut, BnumGet            *ssa.Function
-	LockAcquire, LockRelease                                  *ssa.Function
-	AllocNum, FreeNum                                         *ssa.Function
+	OverWrite, ReadBuf, SetDirty, BnumPut, BnumGet                     *ssa.Function
+	LockAcquire, LockRelease                                           *ssa.Function
+	AllocNum, FreeNum                                                  *ssa.Function
 
 	AllocINum, AllocBlock, FreeINum, FreeBlock, PreCommit, PostCommit, PostAbort *ssa.Function
-	WriteBits, ZeroBlock, ReadBlock, AssertValidBlock                             *ssa.Function
+	WriteBits, ZeroBlock, ReadBlock, AssertValidBlock                            *ssa.Function
 
 	WriteInode, InitInode, FreeInode, Resize, Shrink, IsShrinking, DecLink *ssa.Function
 	InodeWrite, InodeRead, bmap, indbmap, Encode, Decode, MkFattr          *ssa.Function
